@@ -105,7 +105,7 @@ func runC12(ctx *Ctx) {
 		maxQ = 4000
 	}
 	r.Rule = fmt.Sprintf("PDU SESSION ESTABLISHMENT ACCEPT built by hand per TS 24.501 8.3.2.1 inside a protected DL NAS TRANSPORT: QoS-rules length every value 0..%d; all 2^9 subsets of the optional IEs in table order (cause, RQ timer, S-NSSAI, always-on, mapped EPS, EAP, QoS flow descriptions, ePCO, DNN) with the PDU address present; IE lengths {min..max alphabets}; 6 addresses (incl. octets equal to IEIs 29 59 8b 7b 22 25 79 75); cause values, AMBR units, PSI/PTI; "+
-		"setup-request transfers encoded by the independent refper: with/without aggregate maximum bit rate, bit rates {0, 2^k-1, 2^k, 4e12} for all k<=42 plus values whose octets spell an IE header of the transfer (00 8b 00 ...), TEID/UPF alphabets, 1..3 QoS flows, optional IEs of the transfer; termination: every octet string of length <=4 over 12 symbols as the optional-IE part, every prefix and every single-octet substitution of 3 valid messages (both extractors), in shard processes under a %v watchdog; "+
+		"setup-request transfers encoded by the independent refper: with/without aggregate maximum bit rate, bit rates {0, 2^k-1, 2^k, 4e12} for all k<=42 plus values whose octets spell an IE header of the transfer (00 8b 00 ...), TEID/UPF alphabets, 1..3 and 20..24, 42..45, 64 QoS flows (lists around 128 and 256 octets), optional IEs of the transfer; termination: every octet string of length <=4 over 16 symbols as the optional-IE part, every prefix and every single-octet substitution of 3 valid messages (both extractors), in shard processes under a %v watchdog; "+
 		"oracle: returned address/TEID/UPF == encoded ones; the call returns or panics (a panic on a malformed input is termination); distinct = distinct inputs", maxQ, 10*time.Second)
 	r.Assume("the Accept layout is typed from TS 24.501 8.3.2.1 (Release 15 IEIs)", "panics on malformed input count as termination for this property (C14/C19 cover crash behaviour)")
 	if !ctx.IsChild() {
@@ -305,8 +305,12 @@ func runC12(ctx *Ctx) {
 	}
 	for _, te := range teids {
 		for _, up := range addrs {
-			for flows := 1; flows <= 3; flows++ {
+			// (1..3 flows, and QoS flow lists just below and above 128 and 256 octets, and the largest list of 64 flows)
+			for _, flows := range []int{1, 2, 3, 20, 21, 22, 23, 24, 42, 43, 44, 45, 64} {
 				for extra := 0; extra < 4; extra++ {
+					if flows > 3 && (extra == 1 || extra == 2) {
+						continue
+					}
 					tr(mkTransfer(nil, te, up, flows, extra), te, up, fmt.Sprintf("transfer no-ambr teid=%x upf=%v flows=%d extra=%d ", te, up, flows, extra), true, nil)
 					tr(mkTransfer([]int64{1000, 2000}, te, up, flows, extra), te, up, fmt.Sprintf("transfer ambr teid=%x upf=%v flows=%d extra=%d ", te, up, flows, extra), true, nil)
 				}
@@ -314,7 +318,7 @@ func runC12(ctx *Ctx) {
 		}
 	}
 	// termination sweeps (malformed inputs: only "returns or panics" is demanded)
-	syms := []byte{0x00, 0x01, 0x08, 0x17, 0x18, 0x1f, 0x22, 0x29, 0x59, 0x7b, 0x80, 0xff}
+	syms := []byte{0x00, 0x01, 0x08, 0x17, 0x18, 0x1f, 0x22, 0x29, 0x59, 0x7b, 0x80, 0xff, 0xfb, 0xfc, 0xfd, 0xfe}
 	var gen func(cur []byte, n int)
 	gen = func(cur []byte, n int) {
 		a := c12base()
